@@ -808,14 +808,16 @@ class Body:
         """a captured variable is named by what the creating body captures — the canonical expression of the
         operand in the closure aggregate — not by its position in the capture list (which changes when the
         closure body mentions its captures in another order)"""
-        if getattr(self, "_capt", None) is None:
+        ud = getattr(self.facts, "upvar_depth", 2)  # 2 for site keys; a rule may ask for the full captured expression
+        if getattr(self, "_capt", None) is None or getattr(self, "_capt_depth", None) != ud:
             self._capt = {}
+            self._capt_depth = ud
             pb = self.facts.bodies.get(self.parent) if self.parent else None
             if pb is not None:
                 for (_bb, _i, cdef, ops, _fields) in pb.closures_created():
                     if cdef == self.id:
                         for i, o in enumerate(ops):
-                            self._capt[i] = pb.canon(o, depth=2, env={}).replace("$", "^")
+                            self._capt[i] = pb.canon(o, depth=ud, env={}).replace("$", "^")
         ty = e["ty"].split("::")[-1][:40]
         if e["f"] in self._capt:
             return "up{%s}" % self._capt[e["f"]]
